@@ -38,7 +38,7 @@ type c20Event struct {
 }
 
 type c20Input struct {
-	Path        string     `json:"path"` // batch-msgp | batch-json | event-json | event-msgp
+	Path        string     `json:"path"` // batch-msgp | batch-json | event-json | event-msgp | otlp-msgp
 	TraceNames  []string   `json:"trace_names"`
 	ParentNames []string   `json:"parent_names"`
 	KeyFields   []string   `json:"key_fields"`
@@ -73,7 +73,7 @@ var c20Strs = []string{"", "a", "hello", "GET", "t1", "é世\U0001F600", "line\n
 var c20LongStrs = []string{strings.Repeat("s", 31), strings.Repeat("s", 32), strings.Repeat("L", 255), strings.Repeat("M", 256)}
 
 func c20Str(r *rand.Rand) string {
-	if r.Intn(12) == 0 {
+	if r.Intn(20) == 0 {
 		return c20Pick(r, c20LongStrs)
 	}
 	return c20Pick(r, c20Strs)
@@ -194,7 +194,7 @@ func c20NestedMap(r *rand.Rand, mode string, depth int) []mpField {
 }
 
 func c20Gen(r *rand.Rand, tier string, i int) any {
-	in := c20Input{Path: []string{"batch-msgp", "batch-msgp", "batch-json", "event-json", "event-msgp"}[r.Intn(5)]}
+	in := c20Input{Path: []string{"batch-msgp", "batch-msgp", "batch-json", "event-json", "event-msgp", "otlp-msgp"}[r.Intn(6)]}
 	mode := "msgp"
 	if strings.HasSuffix(in.Path, "json") {
 		mode = "json"
@@ -454,7 +454,8 @@ func c20GoValue(v mpVal) any {
 }
 
 func c20PathCoq(p string) string {
-	return map[string]string{"batch-msgp": "PBatchMsgp", "batch-json": "PBatchJson", "event-json": "PEventJson", "event-msgp": "PEventMsgp"}[p]
+	return map[string]string{"batch-msgp": "PBatchMsgp", "batch-json": "PBatchJson", "event-json": "PEventJson", "event-msgp": "PEventMsgp",
+		"otlp-msgp": "PMetaOnly"}[p]
 }
 
 func c20BuildBatchMsgp(in *c20Input) []byte {
@@ -545,6 +546,20 @@ func c20Run(raw json.RawMessage) (Case, error) {
 			code, _ := env.Post("events", dataset, ct, apiKey, in.UA, hdr, body)
 			statuses = append(statuses, code)
 		}
+	case "otlp-msgp":
+		// after husky's translation: msgpack attribute maps handed to processOTLPRequestBatchMsgp
+		var attrs [][]byte
+		var times []time.Time
+		var rates []int32
+		for i, ev := range in.Events {
+			attrs = append(attrs, mpEncodeMap(nil, ev.Fields, ev.W))
+			times = append(times, time.Unix(c20BaseTime+int64(i), 0).UTC())
+			rates = append(rates, int32(ev.Rate))
+		}
+		if err := env.PostOTLPMsgp(dataset, apiKey, in.UA, attrs, times, rates); err != nil {
+			return Case{}, err
+		}
+		statuses = append(statuses, 200)
 	default:
 		return Case{}, fmt.Errorf("bad path %q", in.Path)
 	}
@@ -573,7 +588,64 @@ func c20Run(raw json.RawMessage) (Case, error) {
 		}
 		env.Upstream.EnqueueSpan(s.Span)
 	}
-	recv, err := r2DecodeBatches(env.Finish())
+	reqs := env.Finish()
+	// second hop: what arrived at the peer endpoint is posted, byte for byte and with the headers the
+	// peer transmission sent, to the batch handler of a second node (peer listener) that owns every
+	// trace; its collector applies the event's ops and transmits upstream
+	hop2 := map[int]string{}
+	var firstHop []r2Request
+	var peerReqs []r2Request
+	for _, rq := range reqs {
+		if rq.Prefix == "peer" {
+			peerReqs = append(peerReqs, rq)
+		} else {
+			firstHop = append(firstHop, rq)
+		}
+	}
+	if len(peerReqs) > 0 {
+		env2, err := r2NewEnv(r2Options{TraceNames: in.TraceNames, ParentNames: in.ParentNames, KeyFields: in.KeyFields, Incoming: false})
+		if err != nil {
+			return Case{}, err
+		}
+		for _, rq := range peerReqs {
+			ua2 := rq.Headers.Get("User-Agent")
+			code, _ := env2.Post("batch", strings.TrimPrefix(rq.Path, "/1/batch/"), rq.Headers.Get("Content-Type"), rq.APIKey, ua2, nil, rq.Body)
+			statuses = append(statuses, code)
+			if v, _, err := mpDecode(rq.Body); err == nil && v.T == "arr" {
+				for _, evv := range v.A {
+					for _, f := range evv.M {
+						if string(f.K) == "time" && f.V.T == "time" {
+							hop2[int(f.V.Sec-c20BaseTime)] = ua2
+						}
+					}
+				}
+			}
+		}
+		n2 := len(env2.Log)
+		for li := 0; li < n2; li++ {
+			s := env2.Log[li]
+			idx := int(s.Snap.TimeSec - c20BaseTime)
+			if idx < 0 || idx >= len(in.Events) {
+				return Case{}, fmt.Errorf("second hop: unexpected timestamp %d at sink %s", s.Snap.TimeSec, s.Sink)
+			}
+			route[idx] = "peer>" + s.Sink
+			if s.Sink != "collector-peer" {
+				continue
+			}
+			atCollector[idx] = true
+			for _, o := range in.Events[idx].Ops {
+				switch o.Op {
+				case "memoize":
+					s.Span.Data.MemoizeFields(o.Keys...)
+				case "set":
+					s.Span.Data.Set(o.K, c20GoValue(*o.V))
+				}
+			}
+			env2.Upstream.EnqueueSpan(s.Span)
+		}
+		firstHop = append(firstHop, env2.Finish()...)
+	}
+	recv, err := r2DecodeBatches(firstHop)
 	if err != nil {
 		return Case{}, err
 	}
@@ -613,7 +685,11 @@ func c20Run(raw json.RawMessage) (Case, error) {
 		if got[i] {
 			o = cq.Some(mpCoqFields(obs[i]))
 		}
-		evs = append(evs, fmt.Sprintf("{| e_fields := %s; e_ops := %s; e_obs := %s |}", mpCoqFields(ev.Fields), cq.List(ops), o))
+		h2 := cq.None()
+		if ua2, ok := hop2[i]; ok {
+			h2 = cq.Some(cq.Str(ua2))
+		}
+		evs = append(evs, fmt.Sprintf("{| e_fields := %s; e_ops := %s; e_hop2 := %s; e_obs := %s |}", mpCoqFields(ev.Fields), cq.List(ops), h2, o))
 		rt := route[i]
 		if rt == "" {
 			rt = "none"
@@ -622,7 +698,7 @@ func c20Run(raw json.RawMessage) (Case, error) {
 		// non-trivial: forwarded, and some client field went through decode + re-encode
 		memo := strings.HasPrefix(in.Path, "event")
 		for _, f := range ev.Fields {
-			if contains(keyFields, string(f.K)) {
+			if contains(keyFields, string(f.K)) && in.Path != "otlp-msgp" {
 				memo = true
 			}
 			if atCollector[i] {
